@@ -94,6 +94,14 @@ def build(r):
         return tuple(build(x) for x in r[1])
     if t == "dict":
         return {build(k): build(v) for k, v in r[1]}
+    if t == "bytes0":                      # falsy (empty / zero) values that json cannot encode
+        return b""
+    if t == "set0":
+        return set()
+    if t == "frozenset0":
+        return frozenset()
+    if t == "decimal0":
+        return Decimal("0")
     if t == "bytes":
         return b"ab"
     if t == "set":
@@ -195,6 +203,7 @@ CORPUS = [
     I(3), ["set"], ["none"], ["bool", True], ["bool", False], I(0), I(-7), I(2 ** 70), I(1),
     ["float", "1.5"], ["float", "3.0"], ["float", "2.0"], ["float", "nan"], ["float", "inf"], ["float", "-inf"],
     S(""), S("a"), S("hé€\ud800\n\"\\"), ["bytes"], ["frozenset"], ["decimal"], ["obj"], ["objchild"],
+    ["bytes0"], ["set0"], ["frozenset0"], ["decimal0"], L(["bytes0"]), D((S("a"), ["set0"])), ["float", "0.0"], ["float", "-0.0"],
     L(), L(I(1), I(2)), L(S("x"), ["none"]), T(), T(I(1), I(2)), T(S("a")), D(), D((S("a"), I(1))),
     D((S("a"), L(I(1), I(2)))), D((S("forename"), S("Foo")), (S("surname"), S("Bar"))), D((S("forename"), S("Foo"))),
     D((S("a"), S("x")), (S("b"), I(2))),
@@ -225,7 +234,8 @@ CORPUS = [
 LEAVES_JSON = [["none"], ["bool", True], ["bool", False], I(0), I(1), I(3), I(-2), I(12345678901234567890),
                ["float", "0.5"], ["float", "3.0"], ["float", "nan"], ["float", "inf"], ["float", "-inf"],
                S(""), S("a"), S("b"), S("é")]
-LEAVES_OTHER = [["bytes"], ["set"], ["frozenset"], ["decimal"], ["obj"], ["objchild"], ["cyclist", []],
+LEAVES_OTHER = [["bytes"], ["set"], ["frozenset"], ["decimal"], ["obj"], ["objchild"], ["bytes0"], ["set0"], ["frozenset0"],
+                ["decimal0"], ["cyclist", []],
                 ["cycdict", []], ["pow10", 4300, 1, 0]]
 KEYS_JSON = [S("a"), S("b"), S("c"), S(""), I(1), I(0), ["float", "1.5"], ["bool", True], ["none"], ["float", "nan"]]
 KEYS_OTHER = [T(I(1), I(2)), T(), ["frozenset"], ["bytes"], ["obj"], ["decimal"], ["pow10", 4300, 1, 0]]
